@@ -409,7 +409,7 @@ impl Palette {
                 }
                 Err(err) => return Err(anyhow::anyhow!("Invalid input: {err}")),
             },
-            PaletteFormat::Ase => todo!(),
+            PaletteFormat::Ase => return Err(anyhow::anyhow!("ASE palettes are not supported")),
         }
         Ok(Self {
             title,
